@@ -1735,6 +1735,41 @@ class Interp:
                                 cur, sym_of, backs = cand, sym2, backs2
                         except InterpError:
                             pass
+                    # a counter that goes up by one per iteration and is compared with a loop-invariant limit by `!=` / `==` only
+                    # (`if taken == n { break }`): intervals cannot see the bound, the induction is one line - `c <= L` and
+                    # `c != L` give `c + 1 <= L` for integers - provided the counter starts at or below the limit
+                    try:
+                        refined = False
+                        for n in idx:
+                            a_ = sym_of.get(n)
+                            if a_ is None or not backs:
+                                continue
+                            A_ = Poly.atom(a_)
+                            if not all(isinstance(self.read_place(o.state, o.state.frames[depth], places[n]), Num)
+                                       and self.read_place(o.state, o.state.frames[depth], places[n]).term == A_ + 1 for o in backs):
+                                continue
+                            lim = None
+                            for f_ in backs[0].ctx.facts:
+                                k_ = f_.k
+                                if k_[0] == 'cmp' and k_[1] == '!=' and isinstance(k_[2], Poly) and k_[2].t.get(((a_, 1),)) in (1, -1):
+                                    d_ = k_[2] if k_[2].t[((a_, 1),)] == 1 else -k_[2]
+                                    cand_l = A_ - d_
+                                    if not any(x == a_ or (x[0] == 'sym' and str(x[1]).startswith('loop')) for x in cand_l.atoms()):
+                                        lim = cand_l
+                                        break
+                            if lim is None or not all(o.ctx.decide(cmp_term('Ne', A_, lim)) is True for o in backs):
+                                continue
+                            cont, k = self.resolve(st, fr, places[n])
+                            if not isinstance(cont[k], Num) or st.ctx.decide(cmp_term('Le', cont[k].term, lim)) is not True:
+                                continue
+                            lhi = st.ctx.rng(lim)[1]
+                            if lhi < cur[n][1]:
+                                cur[n] = (cur[n][0], lhi)
+                                refined = True
+                        if refined:
+                            sym_of, backs, post = probe(cur)
+                    except InterpError:
+                        pass
                     info = {'ranges': cur, 'no_iteration': not backs, 'reductions': []}
                     if backs:
                         info['reductions'] = self.recognise_reductions(st, fr, places, idx, sym_of, backs, depth, getattr(self, '_probe_exits', None))
@@ -1816,6 +1851,43 @@ class Interp:
                 if isinstance(cont[kk], Num):
                     taken = (n, a, cont[kk].term, by_count)
                     break
+            if taken is None:
+                # the same with a counter that goes UP by one and a limit: left (before anything is accumulated) when the counter
+                # equals a loop-invariant limit that it started at or below
+                for n in idx:
+                    a = sym_of.get(n)
+                    if a is None:
+                        continue
+                    A = Poly.atom(a)
+                    try:
+                        if not all(isinstance(self.read_place(o.state, o.state.frames[depth], places[n]), Num)
+                                   and self.read_place(o.state, o.state.frames[depth], places[n]).term == A + 1 for o in backs):
+                            continue
+                    except InterpError:
+                        continue
+                    by_count = [o for o in exits if o.state.tags.get('last_next') != 'none']
+                    if not by_count:
+                        continue
+                    # the limit: A == limit is a fact of the paths that leave by count
+                    limit = None
+                    for f_ in by_count[0].ctx.facts:
+                        k_ = f_.k
+                        if k_[0] == 'cmp' and k_[1] == '==' and isinstance(k_[2], Poly) and k_[2].t.get(((a, 1),)) in (1, -1):
+                            d_ = k_[2] if k_[2].t[((a, 1),)] == 1 else -k_[2]
+                            lim = A - d_
+                            if a not in {x for x in lim.atoms()} and not any(str(x[1]).startswith('loop') for x in lim.atoms() if x[0] == 'sym'):
+                                limit = lim
+                                break
+                    if limit is None:
+                        continue
+                    cont, kk = self.resolve(st, fr, places[n])
+                    c0 = cont[kk]
+                    if not isinstance(c0, Num) or st.ctx.decide(cmp_term('Le', c0.term, limit)) is not True:
+                        continue
+                    if all(o.ctx.decide(cmp_term('Eq', A, limit)) is True for o in by_count) \
+                            and all(o.ctx.decide(cmp_term('Ne', A, limit)) is True for o in backs):
+                        taken = (n, a, limit - c0.term, by_count)
+                        break
         float_sums = [n for n in range(len(places)) if n not in idx and n in sym_of] if taken else []
         for n in list(idx) + float_sums:
             a = sym_of.get(n)
